@@ -1,22 +1,26 @@
 package main
 
 import (
+	"context"
 	"os"
+	"os/exec"
 	"path/filepath"
 	"sort"
 	"strings"
+	"time"
 )
 
 // LemmaResult is a stand-alone SMT goal (composition lemma over contract spec functions)
 // kept in /verif/lemmas/<name>.smt2 with header lines "; property: C19[,C09]" and "; expect: unsat|sat".
 type LemmaResult struct {
-	Name    string
-	Props   []string
-	Expect  string
-	Script  string
-	Ob      *Obligation
-	Err     string
-	Decided bool // a syntactic side condition: already decided, nothing to solve
+	Name     string
+	Props    []string
+	Expect   string
+	Script   string
+	Ob       *Obligation
+	Err      string
+	Decided  bool   // a syntactic side condition: already decided, nothing to solve
+	LeanFile string // a Lean lemma: checked by lean, not by an SMT solver
 }
 
 func lemmasFor(db *ContractDB, prop string) []*LemmaResult {
@@ -49,8 +53,71 @@ func lemmasFor(db *ContractDB, prop string) []*LemmaResult {
 	return out
 }
 
+// leanLemmasFor: lemmas/lean/*.lean with a "-- property: Cxx" header. They are checked by the Lean 4 kernel (lean on
+// PATH, Mathlib pre-installed); a file passes only if lean exits 0 and reports neither an error nor a `sorry`.
+func leanLemmasFor(prop string) []*LemmaResult {
+	files, _ := filepath.Glob(filepath.Join(verifDir(), "lemmas", "lean", "*.lean"))
+	sort.Strings(files)
+	var out []*LemmaResult
+	for _, fn := range files {
+		b, err := os.ReadFile(fn)
+		if err != nil {
+			continue
+		}
+		l := &LemmaResult{Name: strings.TrimSuffix(filepath.Base(fn), ".lean"), Expect: "lean", Script: string(b), LeanFile: fn}
+		for _, line := range strings.Split(string(b), "\n") {
+			line = strings.TrimSpace(line)
+			if strings.HasPrefix(line, "-- property:") {
+				for _, p := range strings.Split(strings.TrimPrefix(line, "-- property:"), ",") {
+					l.Props = append(l.Props, strings.TrimSpace(p))
+				}
+			}
+		}
+		if !hasTag(l.Props, prop) {
+			continue
+		}
+		l.Ob = &Obligation{Name: "lemma:" + l.Name, Fn: "lemma", Kind: "lemma", Tags: l.Props, Pos: "lemmas/lean/" + filepath.Base(fn), Goal: l.Name}
+		out = append(out, l)
+	}
+	return out
+}
+
+func solveLeanLemma(l *LemmaResult, timeoutMs int) {
+	t0 := time.Now()
+	ctx, cancel := context.WithTimeout(context.Background(), time.Duration(timeoutMs)*time.Millisecond*30)
+	defer cancel()
+	cmd := exec.CommandContext(ctx, "lean", l.LeanFile)
+	cmd.Dir = filepath.Dir(l.LeanFile)
+	out, err := cmd.CombinedOutput()
+	o := string(out)
+	l.Ob.Solver = "lean4"
+	l.Ob.Secs = time.Since(t0).Seconds()
+	if ctx.Err() != nil {
+		l.Ob.Status = "unknown"
+		l.Ob.Model = "lean: timeout"
+		return
+	}
+	if _, lookErr := exec.LookPath("lean"); lookErr != nil {
+		l.Err = "lemma " + l.Name + ": lean is not on PATH"
+		return
+	}
+	if err == nil && !strings.Contains(o, "error") && !strings.Contains(o, "sorry") {
+		l.Ob.Status = "discharged"
+		return
+	}
+	l.Ob.Status = "failed"
+	if len(o) > 3000 {
+		o = o[:3000]
+	}
+	l.Ob.Model = o
+}
+
 func solveLemma(l *LemmaResult, timeoutMs int, all bool) {
 	if l.Decided {
+		return
+	}
+	if l.LeanFile != "" {
+		solveLeanLemma(l, timeoutMs)
 		return
 	}
 	for i := range solvers {
